@@ -10,7 +10,7 @@ EXPR = ['f(X)', 'f(X, Y)', 'f(Y, X)', 'f(X, X)', 'f(X, f(Y, X))', 'g(f(X, Y))', 
 def fixed_skeletons():
     return ['a -> b\nb -| a\nc -? a\n', 'a -> b\nc -? b\n$b: f(a, c) & !k\n', 'a -> b\nb -> a\na -> a\n$b: f(a)\n$a: f(b) & a\n', 'a -?? a\nb -?? a\nc -?? a\n',
             'a -> b\n$a: k\n', 'a -> b\nb -> c\nc -| a\n$c: true\n', 'a -> b\n$b: !a\nb -> c\n$c: b | !b\n', 'a -> b\na -> c\n$b: f(a)\n$c: !f(a)\n',
-            'a -> b\nc -> b\n$b: f(a, c) & !f(c, a)\n', 'a -> b\nc -> b\n$b: f(a, f(c, a))\n', 'a -> b\n$b: f(a) & f_1\n', 'a -? y\nx -> x\na -> x\ny -> x\n$x: a | y_0 | x\n']
+            'a -> b\nc -> b\n$b: f(a, c) & !f(c, a)\n', '$a: k\nb -?? b\n$b: !f(b) | k\n', '$a: !k\n$b: k & k2\nc -> c\n$c: c | k2\n', '$a: true\nb -> b\n', 'a -> b\nc -> b\n$b: f(a, f(c, a))\n', 'a -> b\n$b: f(a) & f_1\n', 'a -? y\nx -> x\na -> x\ny -> x\n$x: a | y_0 | x\n']
 
 def gen_skeletons(rng, n):
     names = ['a', 'b', 'c']
